@@ -642,6 +642,30 @@ MonDriftSchedule(S) ==
                 ELSE {D("Error()'s result differs from the result of the model behaviour the run followed")})
 
 (***************************************************************************)
+(* C20 end to end: in the JSON of a delivered transaction an absent column  *)
+(* is flagged absent, SQL NULL is JSON null and every other value is a JSON *)
+(* string (so NULL and the empty string stay distinct), cell by cell.       *)
+(***************************************************************************)
+JState(st) == CASE st = "absent" -> "absent" [] st = "null" -> "null" [] OTHER -> "str"
+ImageStates(rows, side) == [r \in 1..Len(rows) |-> [c \in 1..Len(IF side = "a" THEN rows[r].a ELSE rows[r].b) |->
+                              JState((IF side = "a" THEN rows[r].a ELSE rows[r].b)[c].st)]]
+MonC20(S) ==
+  LET ds == Delivered(S, 0)
+      xs == ExpectedFrom(S, StartPos(S))
+  IN UNION {
+       IF Len(ds[k].jstates) # Len(xs[k].changes) THEN {Z("C20.structure", S, "JSON does not have one event per change", k, 0)}
+       ELSE UNION {
+         LET e == xs[k].changes[j]  js == ds[k].jstates[j] IN
+         IF js.err THEN {Z("C20.marshal", S, "serialising a delivered transaction failed", k, j)}
+         ELSE IF e.k = "query" THEN {}
+         ELSE (IF e.k \in {"write", "update"} /\ js.vals # ImageStates(e.rows, "a")
+               THEN {Z("C20.null-vs-empty", S, "after image: absent / NULL / value (string) rendering differs from the binlog row", k, j)} ELSE {}) \cup
+              (IF e.k \in {"update", "delete"} /\ js.ids # ImageStates(e.rows, "b")
+               THEN {Z("C20.null-vs-empty", S, "before image: absent / NULL / value (string) rendering differs from the binlog row", k, j)} ELSE {})
+         : j \in 1..Len(xs[k].changes)}
+       : k \in 1..Min2(Len(ds), Len(xs))}
+
+(***************************************************************************)
 (* Dispatch and the replay state machine.                                  *)
 (***************************************************************************)
 \* end-to-end halves of the value properties: the delivered cells of the property's column kinds match the oracle
@@ -659,6 +683,7 @@ Mon(p, S) ==
     [] p = "C05" -> MonC05(S) \cup MonDrift(S) \cup MonDriftParser(S) \cup MonDriftSchedule(S)
     [] p = "C06" -> MonC06(S) \cup MonDriftSchedule(S)
     [] p = "C08" -> MonC08(S)
+    [] p = "C20" -> MonC20(S)
 
 Failures(S) == UNION {Mon(p, S) : p \in Props}
 
